@@ -1,3 +1,21 @@
 import Cherab.Props.C06
 open Cherab.Props.C06
-#print axioms placeholder
+#print axioms refines_kv
+#print axioms outcome_refines
+#print axioms last_write_wins
+#print axioms never_written_raises
+#print axioms getter_reads_kv
+#print axioms beam_cx_getter_reads_kv
+#print axioms accepted_update_writes_all
+#print axioms stored_arrays_are_inputs
+#print axioms paths_injective
+#print axioms keys_injective
+#print axioms transition_key_iff_lower_equal
+#print axioms transition_separator_collision
+#print axioms rejected_update_preserves
+#print axioms writes_under_root
+#print axioms writes_under_root_of_tables
+#print axioms add_matches_update_of_tables
+#print axioms misrouted_add_never_updates_own_family
+#print axioms dropped_root_escapes
+#print axioms idealTables_wellFormed
